@@ -195,6 +195,7 @@ type aworld struct {
 	stops       []*stopOp
 	stopBegan   int // scheduler step of the first Stop call (0 = none)
 	stopDone    bool
+	tailDone    bool
 	stopsLeft   int
 	finale      bool
 	stopAtBegin int // admitted-but-incomplete futures when the first stop began
